@@ -63,7 +63,7 @@ def cases(tier, seed):
     out = []
     for name, term, kind in R.pd_terms(tier):
         depth1 = "(" not in name
-        for b in ([], [2]):
+        for b in ([], [2]) + (([1],) if (tier == "thorough" and "(" not in name) else ()):  # a singleton batch dimension (thorough)
             for dt in (["f64", "f32"] if depth1 else ["f64"]):
                 for cfg in lattice(tier):
                     if not depth1 and tier == "quick" and cfg not in ({}, {"max_cholesky_size": 0, "cg_tolerance": 1e-4}):
